@@ -314,6 +314,17 @@ def isTable (h : Heap) (v : Val) : Option (List (Val × Val)) :=
   | .obj a => match h.get a with | some (.table _ es) => some es | _ => none
   | _ => none
 
+/-- `guard_value` in stdlib.rs: an object value held only by a native is protected -/
+def guardVal (v : Val) : M Unit :=
+  match v with
+  | .obj a => modify fun s => { s with guards := a :: s.guards }
+  | _ => pure ()
+
+def unguardVal (v : Val) : M Unit :=
+  match v with
+  | .obj a => dropGuard a
+  | _ => pure ()
+
 /-- the registered host functions: the stdlib natives and the harness' fixed test family.
     Arguments stay on the value stack while the function runs (repaired wrappers) and are
     popped afterwards. -/
@@ -331,6 +342,8 @@ def callNativeBody (reenter : Reenter) (name : String) : M Val := do
       | (k0, v0) :: rest => do
         push v0; push k0
         let mut best ← reenter keyFn
+        -- (repaired) the best key so far is only referenced from the native: it is guarded
+        guardVal best
         let mut idx := 0
         let mut j := 1
         for (k, v) in rest do
@@ -341,8 +354,11 @@ def callNativeBody (reenter : Reenter) (name : String) : M Val := do
                         else OVal.vlt hostF64 (ownD h best) (ownD h key)
           if better then
             idx := j
+            unguardVal best
             best := key
+            guardVal best
           j := j + 1
+        unguardVal best
         let (k, v) := es.getD idx (.nil, .nil)
         let row ← initTable
         let ks ← initString "key".toUTF8.toList
